@@ -426,7 +426,7 @@ def check_C15(tier, seed):
     shutil.rmtree(wd, ignore_errors=True)
     rule = ("grammar texts compiled through the real library route (Grammar::from_str + generate_code), each in its own catch_unwind inside a driver process with BEGIN/END markers (process death attributed and classified with gdb): "
             "suite grammars, generator output of 7 profiles, token/byte-level mutants of those (truncate, drop/dup/swap tokens, rename identifiers to digits/keywords/_/path keywords, unbalance brackets, splice), hand-written hostile texts, deep nesting, "
-            "one constructor per documented restriction in 3 contexts (must be rejected); plus peginator-cli / Compile::run / run_exit_on_error exit-status checks. "
+            "one constructor per documented restriction in 3 contexts (must be rejected); plus peginator-cli / Compile::run / run_exit_on_error exit-status checks (single files, repeated runs, and directory trees with one rejected grammar at every place of the listing). "
             "Non-trivial: text is not a suite grammar verbatim; distinct texts.")
     return out.finish(len(corpus) + ntool, len(nontriv), rule, floor=200)
 
